@@ -268,6 +268,9 @@ pub fn reg(m: &mut Map) {
     opx!(m, "el.serialized_size", (a: el), ru, a.serialized_size(Compress::Yes));
     opx!(m, "el.serialized_size_uncompressed", (a: el), ru, a.serialized_size(Compress::No));
     opx!(m, "el.deser", (b: by), rser_el, <Element as CanonicalDeserialize>::deserialize_compressed(&b[..]));
+    opx!(m, "el.deser.drip", (b: by), rser_el, <Element as CanonicalDeserialize>::deserialize_compressed(Drip(&b[..])));
+    opx!(m, "af.deser.drip", (b: by), rser_af, <AffinePoint as CanonicalDeserialize>::deserialize_compressed(Drip(&b[..])));
+    opx!(m, "enc.deser.drip", (b: by), rser_by, <Encoding as CanonicalDeserialize>::deserialize_compressed(Drip(&b[..])).map(|e| e.0.to_vec()));
     opx!(m, "el.deser_uncompressed", (b: by), rser_el, <Element as CanonicalDeserialize>::deserialize_uncompressed(&b[..]));
     opx!(m, "el.deser_unchecked", (b: by), rser_el, <Element as CanonicalDeserialize>::deserialize_with_mode(&b[..], Compress::Yes, Validate::No));
     opx!(m, "af.ser", (a: af), rser_by, ser_vec(&a, Compress::Yes));
@@ -318,4 +321,17 @@ pub fn reg(m: &mut Map) {
         Some(v) => format!("SOME {}", v.iter().map(fs).collect::<Vec<_>>().join(";")),
         None => "NONE".to_string(),
     });
+}
+
+/// a reader that delivers one byte per `read` call (short reads are legal for `Read`)
+pub struct Drip<'a>(pub &'a [u8]);
+impl<'a> ark_std::io::Read for Drip<'a> {
+    fn read(&mut self, buf: &mut [u8]) -> ark_std::io::Result<usize> {
+        if self.0.is_empty() || buf.is_empty() {
+            return Ok(0);
+        }
+        buf[0] = self.0[0];
+        self.0 = &self.0[1..];
+        Ok(1)
+    }
 }
